@@ -15,8 +15,8 @@ RULE = ("token-kind sequences over the 17 parser-visible kinds with representati
 
 TEXT = {'lparen': ['('], 'rparen': [')'], 'dot': ['.'], 'dcolon': ['::'], 'colon': [':'], 'semi': [';'], 'equals': ['='],
         'comma': [','], 'slash': ['/'], 'import': ['import'], 'let': ['let'], 'bool': ['true', 'false'], 'ident': ['a', 'b', 'f', 'x_1'],
-        'ipv4': ['1.2.3.4', '255.0.0.1'], 'str': ['"s"', '"|00 ff|"', '""', '"5"', '"true"', '"0x1f"', '"1.2.3.4"', '"65535"', '"a"', '"import"'], 'hex': ['0x1f', '0x0', '0x00000000000000001', '0x0000ffffffffffffffff'], 'int': ['5', '0', '65535', '000000000000000000000000007']}
-BADLIT = ['99999999999999999999', '-5', '01.2.3.4', '256.1.1.1', '"|f|"', '"|zz|"', '0xfffffffffffffffff', '65536', '18446744073709551615']
+        'ipv4': ['1.2.3.4', '255.0.0.1'], 'str': ['"s"', '"|00 ff|"', '""', '"5"', '"true"', '"0x1f"', '"1.2.3.4"', '"65535"', '"a"', '"import"'], 'hex': ['0x1f', '0x0', '0x00000000000000001', '0x0000ffffffffffffffff'], 'int': ['5', '0', '65535', '000000000000000000000000007', '-0', '-7']}
+BADLIT = ['99999999999999999999', '-5', '-0', '-00', '-18446744073709551616', '01.2.3.4', '256.1.1.1', '"|f|"', '"|zz|"', '0xfffffffffffffffff', '65536', '18446744073709551615']
 KINDS = list(TEXT)
 
 
@@ -148,7 +148,7 @@ def campaign(c):
         mt = mutate(r, toks)
         if r.chance(1, 3): mt = mutate(r, mt)
         check(c, mt, 'mutant', r)
-    for port in ['0', '65535', '65536', '65537', '131072', '18446744073709551615', '18446744073709551616', '-1', '0x10']:
+    for port in ['0', '65535', '65536', '65537', '131072', '18446744073709551615', '18446744073709551616', '-1', '-0', '-65456', '-65536', '00080', '0x10']:
         check(c, ['let', 'a', '=', '1.2.3.4', ':', port, ';'], 'port')
         check(c, ['f', '(', '1.2.3.4', ':', port, ')', ';'], 'port')
     # literals of different kinds with the same spelling inside and outside quotes, in both orders, near and far apart
